@@ -28,7 +28,7 @@ def main(chk):
                     'z3 (mixed integer/real arithmetic with to_int) for the exact-real law; cbmc --floatbv for IEEE counterexample search']
     chk.assumptions += ['0 < dt <= S (documented S >= dt), exact-real runs: S <= 8 dt (keeps the set of rounded ratios finite), all values finite; bit-precise search: 1e-9 <= dt <= S <= 1e6',
                         '"K within one of T/S+1" is read as |K - (T/S + 1)| < 2: the mesh is saved at the start of an iteration, so the state reached at t >= T is never written and the literal reading fails by up to dt/S for every non-commensurable ratio']
-    chk.bounds = {'history (exact real)': '%d iterations' % kreal, 'history (bit-precise)': '%d iterations' % kfp, 'cbmc limit per obligation': '%ds' % (120 if quick else 900),
+    chk.bounds = {'history (exact real)': '%d iterations' % kreal, 'history (bit-precise)': '%d iterations' % kfp, 'cbmc limit per obligation': '%ds' % (120 if quick else 300),
                   'outside': 'file contents, pairing of cell/face files on disk, CSV shape and values, statistics cadence, populations changing during the run'}
 
     # ---- translator validation -----------------------------------------------------------------------
